@@ -245,12 +245,20 @@ def read_files(base):
                 continue
             path = os.path.join(root, fn)
             rel = os.path.relpath(path, base).split(os.sep)
-            if len(rel) != 3:
+            if len(rel) == 1:
+                # flat "LXY" naming scheme: L{n}X{x}Y{y}.ext
+                import re
+                m = re.fullmatch(r"L(\d+)X(\d+)Y(\d+)\.(\w+)", rel[0])
+                if not m:
+                    continue
+                pos, ext = (int(m.group(1)), int(m.group(2)), int(m.group(3))), m.group(4)
+            elif len(rel) == 3:
+                n, y, name = rel
+                stem, ext = name.rsplit(".", 1)
+                x = stem.split("_")[1]
+                pos = (int(n), int(x), int(y))
+            else:
                 continue
-            n, y, name = rel
-            stem, ext = name.rsplit(".", 1)
-            x = stem.split("_")[1]
-            pos = (int(n), int(x), int(y))
             if ext == "npy":
                 arr = np.load(path)
             elif ext == "fits":
@@ -329,8 +337,19 @@ def run_impl(case, work, tag):
     cs = CS(case["coordsys"])
     base = work / f"c06_{tag}"
     shutil.rmtree(base, ignore_errors=True)
-    pio = PyramidIO(str(base), default_format=case["default"])
+    pio = PyramidIO(str(base), default_format=case["default"], scheme=case.get("scheme", "L/Y/YX"))
     exc = None
+    # several workers create the output directories at the same time: stretch every mkdir below the
+    # output directory a little (harmless for code that tolerates the directory appearing meanwhile)
+    real_mkdir = os.mkdir
+    if case["parallel"] > 1:
+        import time as _time
+
+        def slow_mkdir(path, *a, **kw):
+            if str(path).startswith(str(base)):
+                _time.sleep(0.12)
+            return real_mkdir(path, *a, **kw)
+        os.mkdir = slow_mkdir
     try:
         with quiet():
             for ps in case["passes"]:
@@ -352,6 +371,8 @@ def run_impl(case, work, tag):
                     sample_layer_filtered(pio, flt, s, case["depth"], coordsys=cs, parallel=case["parallel"])
     except Exception as e:  # noqa: BLE001
         exc = f"{type(e).__name__}: {e}"
+    finally:
+        os.mkdir = real_mkdir
     files = None if exc is not None else read_files(str(base))
     shutil.rmtree(base, ignore_errors=True)
     return files, exc
@@ -493,6 +514,13 @@ def gen_cases(rng, tier):
     add(parallel=5, depth=3, default="npy", kind="f64", coordsys="planetary")
     add(parallel=2, depth=2, default="png", kind="rgba", clobber=False, coordsys="planetary",
         passes=[dict(acc=[[1, 0, 0], [1, 1, 1], [2, 0, 0], [2, 1, 1], [2, 3, 3], [2, 2, 2]], tag=1, mtop=True, mbot=False, masked_tiles=[])])
+    # the whole-sphere tile with several workers; the flat LXY naming scheme into a directory that
+    # does not exist yet, serial and with several workers
+    add(depth=0, default="npy", parallel=2)
+    add(depth=0, default="fits", kind="f64", parallel=3, coordsys="planetary")
+    add(depth=1, default="npy", kind="f64", scheme="LXY")
+    add(depth=1, default="npy", kind="i32", scheme="LXY", parallel=2)
+    add(depth=2, default="fits", kind="f64", scheme="LXY", parallel=5, coordsys="planetary")
     # through Builder.toast_base
     add(via="builder", depth=1, default="png", kind="rgb")
     add(via="builder", depth=2, default="fits", kind="f64", coordsys="planetary", clobber=False,
@@ -551,11 +579,6 @@ def run(ctx, V):
     for i, case in enumerate(cases):
         files, exc = run_impl(case, work, str(i))
         obs, fails = judge(case, files, exc, V)
-        if case["depth"] == 0 and case["parallel"] > 1 and exc is None and obs == []:
-            # the level-0 callback raised inside a worker process: the child prints the traceback and
-            # visit_leaves(parallel > 1) returns normally (that swallowing is C19's subject).  For this
-            # property the observable is the same as a raise: nothing was sampled.
-            obs, exc = None, "AttributeError: 'NoneType' object ... (raised in a worker process; no tile written)"
         results.append((case, obs, fails, exc))
         key = f"{'clobber' if case['clobber'] else 'update'}/{case['default']}" + (f">{case['override']}" if case["override"] else "") + \
               f"/{case['kind']}/d{case['depth']}/par{case['parallel']}"
